@@ -709,6 +709,52 @@ fam('built_chains', chain_ops + [P("select * from int.tab1 t1 where t1.a = 1", c
                                  P("select * from int.tab1 t1 join int2.tab2 t2 on t1.a = t2.a where t1.c = 3 or t2.d = 4", cA),
                                  {'k': 'render', 'd': 'mindsdb', 'sql': "select a from t where b = 1 or c = 2", 'rd': 'mysql', 'fb': True}])
 
+# keyword blends: a word exactly as close to one keyword as to another (DELECT: SELECT / DELETE, SE: SET / USE, ND: AND / END), put
+# where one of the two stands in an accepted statement.  Whatever an error reporter does with "the nearest keyword" has to break a
+# tie here, and a tie broken by iteration order of a set follows the hash seed.  Computed from the lexer's token names.
+import difflib as _difflib
+from mindsdb_sql.parser.dialects.mindsdb.lexer import MindsDBLexer as _MLexer
+_kws = sorted(t_ for t_ in _MLexer.tokens if re.fullmatch(r'[A-Z]+', t_) and len(t_) >= 2)
+
+
+def _edits(a_):
+    out_ = set()
+    for i_ in range(len(a_)):
+        out_.add(a_[:i_] + a_[i_ + 1:])
+        if i_ + 1 < len(a_):
+            out_.add(a_[:i_] + a_[i_ + 1] + a_[i_] + a_[i_ + 2:])
+    return out_
+
+
+_blends = set()
+for a_ in _kws:
+    for b_ in _kws:
+        if a_ >= b_ or abs(len(a_) - len(b_)) > 1:
+            continue
+        bl_set_ = _edits(a_) & _edits(b_)
+        for i_ in range(1, min(len(a_), len(b_))):
+            bl_set_.add(a_[:i_] + b_[i_:])
+            bl_set_.add(b_[:i_] + a_[i_:])
+        for bl_ in bl_set_:
+            if bl_ in _kws or len(bl_) < 2:
+                continue
+            r1_ = _difflib.SequenceMatcher(None, bl_, a_).ratio()
+            if r1_ == _difflib.SequenceMatcher(None, bl_, b_).ratio() and r1_ >= 0.72:
+                _blends.add((a_, b_, bl_))
+_accepted = [op for op in parse_ops if op['d'] == 'mindsdb' and outcome('mindsdb', op['sql']).startswith('ok:') and len(op['sql']) < 160]
+blend_ops = []
+_seen_bl = set()
+for a_, b_, bl_ in sorted(_blends):
+    for kw_ in (a_, b_):
+        pat_ = re.compile(r'(?<![A-Za-z_`.])%s(?![A-Za-z_`0-9])' % kw_, re.I)
+        hosts_ = [op for op in _accepted if pat_.search(op['sql'])][:2]
+        for op in hosts_:
+            sql_ = pat_.sub(bl_, op['sql'], count=1)
+            if sql_ not in _seen_bl:
+                _seen_bl.add(sql_)
+                blend_ops.append({'k': 'parse', 'd': 'mindsdb', 'sql': sql_})
+fam('keyword_blends', blend_ops)
+
 # plural slots: every list-valued position of a statement that the planner takes apart, filled with two to four distinct elements
 # whose names differ in length and spelling (so that hashing orders them differently from how they are written).  A collection
 # that an implementation keeps in a set / dict keyed by hashed objects shows its iteration order exactly here: the order of plan
@@ -891,7 +937,7 @@ probes = [
     {'k': 'render', 'd': 'mindsdb', 'sql': "select interval '1 day'", 'rd': 'oracle', 'fb': True},
 ]
 
-pool = parse_ops + mut_ops + mal_ops + plan_ops + render_ops + flow_ops + gen_plan + gen_render + gen_parse + leaf_pool + render_ops_late + dialect_diff_ops + render_ops_long + raw_ops + plural + plural_render + wide_ops
+pool = parse_ops + mut_ops + mal_ops + plan_ops + render_ops + flow_ops + gen_plan + gen_render + gen_parse + leaf_pool + render_ops_late + dialect_diff_ops + render_ops_long + raw_ops + plural + plural_render + wide_ops + blend_ops
 # dedupe
 seen = set()
 pool2 = []
